@@ -40,6 +40,7 @@ def check(rep, model, tier):
     reduce_and_recompute(rep, model)
     getattr_load(rep, model)
     group(rep, model)
+    group_recompute(rep, model)
     effself(rep, model, summ, det)
     from . import c06
     c06.default_keys(rep, model)
@@ -407,3 +408,80 @@ def effself(rep, model, summ, det):
                               found=f'writes through self.{bad_self} / parameters {bad_par} / assigns {assigned}: ' + '; '.join(f'{c}' + (f' [via {v}]' if v else '') for _, c, v in hits[:3]))
             else:
                 rep.ok('EFF-SELF', f'{cls.rsplit(".", 1)[1]}.{name}', site, found='no write through option objects or arguments')
+
+
+def lookup(t, i):
+    """element i of a (possibly updated) literal list"""
+    if t is None:
+        return None
+    if t[0] == 'arr':
+        for k, v, g in reversed(t[2]):
+            if k == C(i) and g == T.TRUE:
+                return v
+            if k[0] == 'path' and k[1] and k[1][0] == C(i) and g == T.TRUE and len(k[1]) == 2:
+                # a store at [i][j]: row i with element j replaced
+                row = lookup(t[1], i)
+                return ('arr', row, ((k[1][1], v, g),)) if row is not None else None
+        return lookup(t[1], i)
+    if t[0] in ('list', 'tuple') and -len(t[1]) <= i < len(t[1]):
+        return t[1][i]
+    return None
+
+
+def group_recompute(rep, model):
+    """BycycleGroup.recompute_edges: every member is recomputed with the same reduction and the group's tables keep mirroring the members'"""
+    rep.rule('GROUP-RECOMPUTE', 'BycycleGroup.recompute_edges(r) calls recompute_edges(r) on the model at every position ([i] / [i][j]) and afterwards df_features at that position '
+                                'is that model\'s (recomputed) table: models keep mirroring df_features after an edge recomputation')
+    g = model.funcs.get(f'{GRP}.recompute_edges')
+    if g is None:
+        rep.unresolved('GROUP-RECOMPUTE', 'method', '-', 'BycycleGroup.recompute_edges not found')
+        return
+    gsite = f'{g.path}:{g.node.lineno} BycycleGroup.recompute_edges'
+    r = ('atom', 'r', 'num')
+    for nd in (2, 3):
+        ctx = new_ctx(model, (model.find('recompute_edges').qual,))       # the functional recomputation stays a call; the members' method is followed
+        grp_obj = E.make_object(ctx, model, GRP, SETTINGS)
+
+        def member(tag):
+            o = E.make_object(ctx, model, BY, SETTINGS)
+            E.attrs(ctx, o).update(df_features=('atom', f'FITTED_{tag}', 'table'), sig=('atom', f'SIG_{tag}', 'arr'), fs=('param', 'fs'), f_range=('param', 'f_range'))
+            return o
+        if nd == 2:
+            members = [member(f'{i}') for i in range(2)]
+            models = ('list', tuple(members))
+            tables = ('list', tuple(E.attrs(ctx, o)['df_features'] for o in members))
+            sigs = ('list', tuple(E.attrs(ctx, o)['sig'] for o in members))
+            flat = [((i,), o) for i, o in enumerate(members)]
+        else:
+            grid = [[member(f'{i}{j}') for j in range(2)] for i in range(2)]
+            models = ('list', tuple(('list', tuple(row)) for row in grid))
+            tables = ('list', tuple(('list', tuple(E.attrs(ctx, o)['df_features'] for o in row)) for row in grid))
+            sigs = ('list', tuple(('list', tuple(E.attrs(ctx, o)['sig'] for o in row)) for row in grid))
+            flat = [((i, j), grid[i][j]) for i in range(2) for j in range(2)]
+        old = {pos: E.attrs(ctx, o)['df_features'] for pos, o in flat}
+        E.attrs(ctx, grp_obj).update(models=models, df_features=tables, sigs=sigs, n_dims=C(nd), fs=('param', 'fs'), f_range=('param', 'f_range'))
+        ctx.trace.clear()
+        E.run(model, g.qual, {'self': grp_obj, 'reduction': r}, ctx=ctx)
+        evs = [e for e in E.calls_to(ctx, 'recompute_edges') if e['kind'] == 'pkgcall' and '.objs.' not in e['name']]
+        rc = model.find('recompute_edges')
+        want_tk = ('dict', tuple(sorted((k, T.sub(v, r) if k.endswith('threshold') else v) for k, v in TH[1])))
+        got_tables = E.attrs(ctx, grp_obj).get('df_features')
+        problems = []
+        if len(evs) != len(flat):
+            problems.append(f'{len(evs)} functional recomputations for {len(flat)} members')
+        for pos, o in flat:
+            new = E.attrs(ctx, o)['df_features']
+            ev = [e for e in evs if e['bound'].get(rc.params[0]) == old[pos]]
+            if len(ev) != 1 or ev[0]['bound'].get(rc.params[1]) != want_tk or new != ev[0]['result']:
+                problems.append(f'member {list(pos)}: not recomputed once with thresholds - r')
+                continue
+            cell = got_tables
+            for p in pos:
+                cell = lookup(cell, p)
+            if cell != new:
+                problems.append(f'df_features{list(pos)} is {T.brief(cell, 60) if cell else None}, the member holds {T.brief(new, 60)}')
+        if problems:
+            rep.violation('GROUP-RECOMPUTE', f'{nd}-D', gsite, expected='every member recomputed with thresholds - r; df_features[pos] is models[pos].df_features afterwards',
+                          found='; '.join(problems[:3]))
+        else:
+            rep.ok('GROUP-RECOMPUTE', f'{nd}-D', gsite, found=f'{len(flat)} members recomputed; group tables refreshed')
